@@ -129,7 +129,7 @@ func init() {
 		ID:    "C27",
 		Level: "exploration",
 		Rule: "histories on a real lang.NewJobs() table with test processes: sequential histories of 10-60 operations (add, terminate, GarbageCollect, Get(id), GetLatest, List over <= 8 live jobs) and concurrent histories (2-4 goroutines, <= 14 operations) with logical call/return stamps; " +
-			"oracle: (a) the statement checked directly on sequential histories — a running job's id never changes between observations, List is exactly the running jobs, Get/GetLatest never return a finished job, GetLatest is the running job with the highest id, a new job's id exceeds every running job's id; (b) porcupine against a nondeterministic sequential model in which garbage collection may drop any number of trailing finished jobs; non-trivial = a job terminates while a higher-numbered job still runs, followed by a GC and a lookup; distinct by history description",
+			"plus tight-race trials (jobs added from 2 goroutines at the instant GarbageCollect runs on a table whose tail job has finished: every added job must stay listed, reachable under its id, ids unique); oracle: (a) the statement checked directly on sequential histories — a running job's id never changes between observations, List is exactly the running jobs, Get/GetLatest never return a finished job, GetLatest is the running job with the highest id, a new job's id exceeds every running job's id; (b) porcupine against a nondeterministic sequential model in which garbage collection may drop any number of trailing finished jobs; non-trivial = a job terminates while a higher-numbered job still runs, followed by a GC and a lookup; distinct by history description",
 		Assumptions: []string{"jobs are lang.NewTestProcess() processes terminated through SetTerminatedState(true)", "a porcupine timeout is inconclusive"},
 		Technique:   "runtime monitoring: recorded API histories checked against the statement (sequential) and for linearizability with porcupine v1.3.0 (concurrent)",
 		Run: func(x *Ctx) {
@@ -176,10 +176,16 @@ func init() {
 				args, _ := json.Marshal(a)
 				cases = append(cases, &proto.Case{ID: fmt.Sprintf("c27-%d", i), Op: "c27.hist", Args: args, TimeoutMs: 30000})
 			}
+			// tight-race trials: jobs added while the table is being garbage collected
+			cases = append(cases, burstCases(x, "c27.burst", x.Pick(16, 64), x.Pick(3000, 40000), 3)...)
 			x.RunAll(pool, cases)
 		},
 		Check: func(x *Ctx, c *proto.Case, r *proto.Result) {
 			if x.Bad(c, r) {
+				return
+			}
+			if c.Op == "c27.burst" {
+				burstCheck(x, c, r, "jobs:lost-or-duplicated-during-gc", "jobs added while GarbageCollect runs")
 				return
 			}
 			var a c27Args
